@@ -46,7 +46,9 @@ def main(argv=None) -> int:
         F = facts_mod.load(a.repo)
         chk = Check(prop, F, a.tier)
         from .props import common as _common
+        from . import opmodel as _om
         _common.CURRENT_FACTS[0] = F
+        _om.prepare(F)
         mod.check(chk)
         if a.tier == 'thorough' and not os.environ.get('SQSTATIC_NO_SELFTEST'):
             # re-validate this checker against its mutant / benign corpus (scratch copies, 16 processes)
